@@ -133,6 +133,16 @@ func checkC09Dispatch(c *Ctx, n int) {
 					want = fmt.Sprintf("no parse error, %d Execute (of command %d), %d CommandHandler", wantExec, curUID, wantHandler)
 					parseErr := o.errKind != "ok" && !strings.HasPrefix(o.errMsg, "exec failed: ") && !strings.HasPrefix(o.errMsg, "help from ")
 					ok = !parseErr && nExec == wantExec && nHandler == wantHandler && (nExec == 0 || execOf == fmt.Sprint(curUID))
+					// the command's own error comes back unchanged: the harness' commands fail with a plain
+					// error ("exec failed: …") or with a *flags.Error of type ErrHelp ("help from …")
+					if ok && strings.HasPrefix(o.errMsg, "exec failed: ") && o.errKind != "foreign" {
+						ok = false
+						want += "; the command's error (a plain error value) returned unchanged"
+					}
+					if ok && strings.HasPrefix(o.errMsg, "help from ") && !(o.errKind == "flags" && o.errType == int(flags.ErrHelp)) {
+						ok = false
+						want += "; the command's error (*flags.Error, ErrHelp) returned unchanged"
+					}
 				}
 				if !ok {
 					in["case_file"] = c.saveCase(cr)
